@@ -8,6 +8,7 @@ from ..mutate import Mutant, in_func, delete_stmt, in_module
 from ..report import AnalysisError
 from ..srcmodel import unparse, norm, walk_no_nested, calls_in
 from . import mergerules as mr
+from . import unitrules
 from . import tr
 from .common import (cfg_of, node_obj, is_method_call, F3, product_dicts, fde_guard, inside_with_calling,
                      facts_at, find_stmt_node, derives_from, get_kw, name_defs, recv_of, only_reached_from)
@@ -714,6 +715,7 @@ def check(repo, run, tier):
     g(r6, repo, run)
     g(r7, repo, run)
     g(mr.propagation_table, repo, run, 'C07.R7', 'safe')
+    g(unitrules.node_init_table, repo, run, 'C07.R6')
     g.done()
 
 
